@@ -436,7 +436,9 @@ fn body(c: &mut Inj, thorough: bool) -> Result<(), Violation> {
                 // (7002: the port the closed socket used to have; 0: what an unbound socket's endpoint reads)
                 let dport = *c.tape.pick(&[7000u16, 7001, 9999, 53, 7000, 0, 7002]);
                 udp_dport = Some(dport);
-                (P_UDP, enc_udp(&src, &dst, 4000, dport, b"injected datagram"), false, false, "udp")
+                // (source port 0 is legal: "not used", RFC 768)
+                let sport = *c.tape.pick(&[4000u16, 4000, 0]);
+                (P_UDP, enc_udp(&src, &dst, sport, dport, b"injected datagram"), false, false, "udp")
             }
             2 | 3 => {
                 let flags = *c.tape.pick(&[F_SYN, F_SYN, F_ACK, F_RST, F_ACK | F_PSH, F_FIN | F_ACK]);
@@ -600,7 +602,39 @@ fn body(c: &mut Inj, thorough: bool) -> Result<(), Violation> {
         // valid UDP datagram sent from the watched port is a valid datagram for the ICMP socket bound to that port: it
         // is delivered, once (the socket's buffer is drained after every frame, so there is room)
         if c.props.has("C09") && !c.props.has("C11") {
-            let plain = is_err && quoted_sport == Some(257) && hbh.is_none() && l2 == L2Class::Own && matches!(dc, DstClass::Own | DstClass::Own2) && matches!(sc, SrcClass::OnLink | SrcClass::OffLink | SrcClass::OnLink2);
+            let from_a_peer = hbh.is_none() && l2 == L2Class::Own && matches!(dc, DstClass::Own | DstClass::Own2) && matches!(sc, SrcClass::OnLink | SrcClass::OffLink | SrcClass::OnLink2) && !is_arp;
+            // the same for a plain UDP datagram to a bound port: it reaches the first socket whose endpoint matches,
+            // once, whole (the buffers are drained after every frame)
+            let judge_udp = from_a_peer && l4p == P_UDP;
+            {
+                let mut expected: Option<usize> = None;
+                for i in 0..c.socks.len() {
+                    if let Sk::Udp(_, port, bound) = &c.socks[i] {
+                        if *port != 0 && Some(*port) == udp_dport && (bound.is_none() || *bound == Some(dst)) && expected.is_none() {
+                            expected = Some(i);
+                        }
+                    }
+                }
+                for i in 0..c.socks.len() {
+                    if let Sk::Udp(h, port, _) = &c.socks[i] {
+                        let (h, port) = (*h, *port);
+                        let so = c.node.sockets.get_mut::<udp::Socket>(h);
+                        let mut got: Vec<Vec<u8>> = vec![];
+                        while let Ok((d, _m)) = so.recv() {
+                            got.push(d.to_vec());
+                        }
+                        // (the sockets are emptied after every frame, judged or not)
+                        let want: usize = if expected == Some(i) { 1 } else { 0 };
+                        if judge_udp && (got.len() != want || got.iter().any(|g| g != b"injected datagram")) {
+                            return Err(viol("C09", "must-deliver", "C09.must-deliver/injected-udp-datagram-not-delivered-once-and-whole", format!("the UDP socket on port {} received {:?} (expected {} intact datagram) for: {}", port, got.iter().map(|g| g.len()).collect::<Vec<_>>(), want, summary)));
+                        }
+                    }
+                }
+                if judge_udp {
+                    c.stats.inc("inj.c09-udp-deliveries-checked");
+                }
+            }
+            let plain = is_err && quoted_sport == Some(257) && from_a_peer;
             for i in 0..c.socks.len() {
                 if let Sk::IcmpUdp(h, port) = &c.socks[i] {
                     let (h, port) = (*h, *port);
